@@ -175,6 +175,29 @@ func (fc *FnCtx) execInstr(fr *Frame, st *State, reach string, ins ssa.Instructi
 			v.Bind = append(v.Bind, fc.value(fr, st, b))
 		}
 		fr.vals[t] = v
+		// a closure under contract: the part of its precondition that speaks only
+		// about captured variables is checked where the closure is created (the
+		// closure may be called much later, by code that is not verified)
+		if con := fc.eng.contracts[v.Fn.String()]; con != nil && len(con.Requires) > 0 && fc.quiet == 0 {
+			vars := map[string]Val{}
+			for i, fv := range v.Fn.FreeVars {
+				if i < len(v.Bind) {
+					bv := v.Bind[i]
+					if bv.K == KAddr && (bv.A.Kind == ACell || capturedByRef(v.Fn, i)) {
+						bv = fc.load(st, bv.A)
+					}
+					vars[fv.Name()] = bv
+				}
+			}
+			for _, cl := range con.Requires {
+				env := fc.specEnv(st, nil, vars, con.Pkg, nil, cl.Text)
+				for _, part := range splitConj(cl.Expr) {
+					if tm, ok := env.tryBool(part); ok {
+						fc.oblige(fr, "requires", "closure "+shortFn(v.Fn)+" (captured state at creation): "+clauseName(cl), reach, tm, env.quant, nil)
+					}
+				}
+			}
+		}
 	case *ssa.MapUpdate:
 		fc.mapUpdate(fr, st, reach, t)
 	case *ssa.Lookup:
